@@ -83,6 +83,7 @@ def recreate_dag(session: Session, task: PTask) -> None:
     try:
         session.dag = create_dag_from_session(session)
         _skip_descendants_of_skipped_tasks(session)
+        _skip_descendants_of_failed_tasks(session)
         session.scheduler = TopologicalSorter.from_dag_and_sorter(
             session.dag, session.scheduler
         )
@@ -111,6 +112,28 @@ def _skip_descendants_of_skipped_tasks(session: Session) -> None:
                         "skip",
                         (),
                         {"reason": f"Previous task {report.task.name!r} was skipped."},
+                    )
+                )
+
+
+def _skip_descendants_of_failed_tasks(session: Session) -> None:
+    """Skip tasks which were added to the DAG below an already failed task.
+
+    When a task fails, all its descending tasks are marked with ``skip_ancestor_failed``.
+    Tasks which are created later by a task generator are not among them.
+
+    """
+    for report in session.execution_reports:
+        if report.outcome != TaskOutcome.FAIL:
+            continue
+        for name in descending_tasks(report.task.signature, session.dag):
+            descending_task = session.dag.nodes[name]["task"]
+            if not has_mark(descending_task, "skip_ancestor_failed"):
+                descending_task.markers.append(
+                    Mark(
+                        "skip_ancestor_failed",
+                        (),
+                        {"reason": f"Previous task {report.task.name!r} failed."},
                     )
                 )
 
